@@ -235,6 +235,10 @@ var c19ValidPaths = []string{
 	"$.a.id()", "$.a.a.twice()", "$.d.max()", "$.d.*.twice()", "$.b[*].a.max()", "$.d.list().first()", "$.b[?(@.a.twice()==2)]", "$.b[?(@.a.id())].a",
 	"$.b[?($.d.max()==3)]", "$.a.onlyA()", "$.a.onlyB()", "$.a.swap()", "$.d.swap()", "$['a','c'].id()", "$.d.count().twice()", "$.a.a.failAll()",
 	"$.d[*].failOdd()", "$.d.failAgg()", "$..a.id()", "$.b[?(@.a.id()==$.a.a.id())]", "$.d.max().id()", "$['a','b','d'].count()",
+	// the leading `$` omitted: the first node is a bracket / a bare name, so whatever an earlier failed
+	// Parse left on the parser's stacks would be adopted as the path's prefix
+	"[?(@.a)]", "[?(@.a==1)].b", "[?(@.a>1 && @.b)]", "[0]", "[0].a", "['a']", "['a','b']", "a.a", "b[0].a", "d[0:2]", "[*].a", "*", "b[?(@.a==1)]",
+	"[?(@.a.id())]", "[?($.d.max()==3)]", "d.max()", "[?(@[0])]",
 }
 
 var c19Probes = []string{
